@@ -2,23 +2,63 @@
 From WI Require Import Lib.Base Lib.Info Lib.Utf8 Model.Render.
 Open Scope N_scope.
 
+(* ops:
+     tree   input = report tree                       impl = bytes printed by printInfo
+     e2e    input = (path tree)                       impl = (stdout status) of `decipher path`
+     stdin  input = (tree)                            impl = (stdout status) of `decipher < file`
+     scan   input = ((path tree) ...) in the order    impl = (stdout status) of `decipher -r dir`
+            the command visits the files                     or `decipher path path ...`
+   [tree] is what the library returned for the same file. *)
+
+Definition scan_item (a : arg) : bytes * info := (arg_bytes (arg_nth 0 a), info_of_arg (arg_nth 1 a)).
+
 Definition run_C20 (op : bytes) (input : arg) : arg :=
   if bytes_eqb op (bs "tree") then AB (print_info (info_of_arg input) 0)
   else if bytes_eqb op (bs "e2e") then
     AL [AB (report (arg_bytes (arg_nth 0 input)) (info_of_arg (arg_nth 1 input))); AZ 0]
+  else if bytes_eqb op (bs "stdin") then
+    AL [AB (print_info (info_of_arg (arg_nth 0 input)) 0); AZ 0]
+  else if bytes_eqb op (bs "scan") then
+    AL [AB (report_all (map scan_item (arg_list input))); AZ 0]
   else AL [].
 
-Definition ends_with_lf (s : bytes) : bool :=
-  match rev s with 10 :: _ => true | _ => false end.
+(* ---- the specification, evaluated on the exact octets of standard output ---- *)
+
+Definition ends_with_lf (s : bytes) : bool := last s 0 =? 10.
+
+(* no C0 other than the LF that ends a line, no DEL, no C1 - as a code point of a valid UTF-8
+   sequence or as a stray octet 0x80..0x9F *)
+Definition check_controls (out : bytes) : arg :=
+  if has_bad_rune (length out) out then AS "control character written unescaped"
+  else if stray_c1 (length out) out then AS "stray C1 byte written unescaped"
+  else AL [].
 
 Definition check_layout (tree : info) (first_indent_known : bool) (out : bytes) : arg :=
-  let ls := split_lines out in
+  let ls := split_lines_fast out in
   if negb (ends_with_lf out) then AS "output does not end with a line terminator"
   else if negb (Nat.eqb (length ls) (count_lines tree)) then AS "number of output lines differs from descriptions+attributes of the report"
   else if first_indent_known && negb (lines_indented (indents_of tree 0) ls) then AS "a line is not indented according to its depth"
-  else if existsb bad_rune (runes out) then AS "control character written unescaped"
-  else if stray_c1 (length out) out then AS "stray C1 byte written unescaped"
-  else AL [].
+  else check_controls out.
+
+(* the lines of a scan: for each file, in order, as many lines as its report has descriptions
+   and attributes, the first one starting with "path: ", each indented according to its depth *)
+Fixpoint check_scan_lines (items : list (bytes * info)) (ls : list bytes) : arg :=
+  match items with
+  | [] => match ls with
+          | [] => AL []
+          | _ => AS "more output lines than the reports of the inspected files have descriptions+attributes"
+          end
+  | (path, tree) :: rest =>
+      let n := count_lines tree in
+      match take n ls with
+      | [] => AS "fewer output lines than the reports of the inspected files have descriptions+attributes"
+      | l0 :: more =>
+          if negb (Nat.eqb (S (length more)) n) then AS "fewer output lines than the reports of the inspected files have descriptions+attributes"
+          else if negb (prefix_of (path ++ [58; 32]) l0) then AS "the report of a file does not start with its path where the structure of the preceding reports puts it"
+          else if negb (lines_indented (indents_of tree 0) (drop (length path + 2) l0 :: more)) then AS "a line is not indented according to its depth"
+          else check_scan_lines rest (drop n ls)
+      end
+  end.
 
 Definition check_C20 (op : bytes) (input impl : arg) : arg :=
   if bytes_eqb op (bs "tree") then check_layout (info_of_arg input) true (arg_bytes impl)
@@ -28,4 +68,15 @@ Definition check_C20 (op : bytes) (input impl : arg) : arg :=
     if negb (Z.eqb (arg_Z (arg_nth 1 impl)) 0) then AS "non-zero exit status"
     else if negb (prefix_of (path ++ [58; 32]) out) then AS "report does not start with the path"
     else check_layout (info_of_arg (arg_nth 1 input)) true (drop (length path + 2) out)
+  else if bytes_eqb op (bs "stdin") then
+    if negb (Z.eqb (arg_Z (arg_nth 1 impl)) 0) then AS "non-zero exit status"
+    else check_layout (info_of_arg (arg_nth 0 input)) true (arg_bytes (arg_nth 0 impl))
+  else if bytes_eqb op (bs "scan") then
+    let out := arg_bytes (arg_nth 0 impl) in
+    if negb (Z.eqb (arg_Z (arg_nth 1 impl)) 0) then AS "non-zero exit status"
+    else if negb (ends_with_lf out) then AS "output does not end with a line terminator"
+    else match check_scan_lines (map scan_item (arg_list input)) (split_lines_fast out) with
+         | AL [] => check_controls out
+         | v => v
+         end
   else AL [].
